@@ -197,7 +197,20 @@ func (c *Ctx) Log(parts ...interface{}) {
 	if traceLog {
 		fmt.Fprintln(os.Stderr, "LOG", c.Run, fmt.Sprint(parts...))
 	}
+	if traceFile != nil {
+		fmt.Fprintln(traceFile, "LOG", c.Run, fmt.Sprint(parts...))
+	}
 }
+
+// traceFile (VERIF_TRACEFILE=<prefix>): every log line of every run, one file per node
+// process; the determinism self-test uses it to show WHERE two executions part.
+var traceFile = func() *os.File {
+	if p := os.Getenv("VERIF_TRACEFILE"); p != "" {
+		f, _ := os.Create(fmt.Sprintf("%s.%d", p, os.Getpid()))
+		return f
+	}
+	return nil
+}()
 
 func (c *Ctx) Sample(v interface{}) {
 	if len(c.N.Samples) < 3 {
